@@ -343,10 +343,14 @@ def sag_links(eng, res):
             if name == "_add_stochastic_bonds" and not listed:
                 tgt_idx = f"_find_bd_token({fi.params[1]}, {db})"
                 if kind == "stochastic_weight":
-                    ok = f"{tgt_idx} < len({fi.params[1]}.repeat_tokens)" in L.pos
+                    from ..ctext import ct
+
+                    ok = ct(f"{tgt_idx} < len({fi.params[1]}.repeat_tokens)") in L.pos
                     res.ob("R-SAG-COMPAT", fi, role + ":target-kind", "a stochastic (growth) edge ends in a repeat unit", c, ok, f"{sorted(L.pos)[:4]}")
                 elif kind == "termination_weight":
-                    ok = f"{tgt_idx} < len({fi.params[1]}.repeat_tokens)" in L.neg
+                    from ..ctext import ct
+
+                    ok = ct(f"{tgt_idx} < len({fi.params[1]}.repeat_tokens)", False) in L.pos
                     res.ob("R-SAG-COMPAT", fi, role + ":target-kind", "a termination edge ends in an end group", c, ok, f"{sorted(L.neg)[:4]}")
     return n
 
@@ -412,7 +416,9 @@ def sag_misc(eng, res):
     if ae and e2:
         L = Link(ft, fl, ae[0])
         rp = {t for t, p in L.raw_guards if p}
-        d = [x for x in fl.defs if x.kind == "assign" and not isinstance(x.value, ast.Constant) and src(x.value) == f"{TB['IR']} < len({TB['ER']}.repeat_tokens)"]
+        from ..ctext import ct
+
+        d = [x for x in fl.defs if x.kind == "assign" and isinstance(x.value, ast.Compare) and ct(src(x.value)) == ct(f"{TB['IR']} < len({TB['ER']}.repeat_tokens)")]
         ok = len(d) == 1
         X = d[0].name if ok else "?"
         res.ob("R-SAG-COMPAT", ft, "target-is-repeat-unit", "a transition edge enters a repeat unit of a stochastic right element (or a plain token)", ae[0], ok)
